@@ -91,3 +91,11 @@ Theorem C14_poll_is_source :
   forall (k : Types.stage) (o : Types.op) (s : Async.astate), PollShape.poll_by_shape PollGen.poll_shape k o s = Some (Async.poll k o s).
 Proof. split; [exact AsyncFacts.poll_source_closed | exact AsyncFacts.poll_is_source_shape]. Qed.
 Print Assumptions C14_poll_is_source.
+
+(** every async method of the source (19: the four common ones, six of the producer, nine of the consumer; regenerated on every run):
+    the operation its future attempts is exactly the synchronous method of the same name on the wrapped iterator, called with the
+    future's own payload, stored in the slot (by reference / by value) the future's type announces *)
+Theorem C14_async_methods_source :
+  forallb (fun x => snd x) PollGen.async_methods = true /\ PollGen.async_clean = true /\ 19 <= length PollGen.async_methods.
+Proof. vm_compute. repeat split; repeat constructor. Qed.
+Print Assumptions C14_async_methods_source.
